@@ -230,8 +230,19 @@ def _filing(ctx, V, b):
                 {_nm(t.left), _nm(t.comparators[0])} == {var, const}
         return f
     slave_t = V.need(V.tests(cmp_test("schedule", "SLAVE")), "schedule == SLAVE test in " + b)
-    front_t = V.need(V.tests(cmp_test("order", "FRONT")), "order == FRONT test in " + b)
-    back_t = V.need(V.tests(cmp_test("order", "BACK")), "order == BACK test in " + b)
+    front_t = V.tests(cmp_test("order", "FRONT"))
+    back_t = V.tests(cmp_test("order", "BACK"))
+    if not front_t or not back_t:
+        # the builder still files taskers, but not by comparing `order` with the FRONT / BACK constants
+        filed = [x for x in ast.walk(V.fn) if isinstance(x, ast.Attribute) and x.attr in ("fronts", "mids", "backs")]
+        if filed:
+            V.ctx.bad("T6-order", filed[0], "%s files a tasker into fronts/mids/backs without testing order == FRONT / order == BACK" % b,
+                      "filing by anything but the named constants (an index into a tuple of lists, arithmetic on the enum value) "
+                      "depends on the numeric values of MID/FRONT/BACK, which are not in list order (MID = 0, FRONT = 1, BACK = 2): "
+                      "`in front` taskers land in mids and default ones in fronts")
+            return
+        V.need(front_t, "order == FRONT test in " + b)
+        V.need(back_t, "order == BACK test in " + b)
     tab = [("fronts.append", [(front_t[0], "T"), (slave_t[0], "F")]),
            ("backs.append", [(back_t[0], "T"), (front_t[0], "F"), (slave_t[0], "F")]),
            ("mids.append", [(back_t[0], "F"), (front_t[0], "F"), (slave_t[0], "F")]),
